@@ -49,7 +49,7 @@ pub fn run(args: &Args, rep: &mut Report) {
     };
     let dir = format!("{}/pr-{}-{}", scratch, std::process::id(), args.shard);
     std::fs::create_dir_all(&dir).unwrap();
-    let nsets = args.get_u64("n", if thorough { 240 } else { 16 });
+    let nsets = args.get_u64("n", if thorough { 160 } else { 16 });
     let only: Option<u64> = args.case.as_ref().and_then(|c| c.parse().ok());
     for i in 0..nsets {
         if !args.mine(i) {
